@@ -432,22 +432,27 @@ Spec == Init /\ [][Next]_vars
 
 -------------------------------------------------------------------------------
 (* ======================= C15 ======================= *)
+(* The action properties talk about the request and reply logged by the step (Last(hist'))
+   and the states before and after it; the ...Step bodies are reused by MetaDBTrace. *)
 Op == Last(hist')
-IsSave == hist' # hist /\ Op.a = "Save"
+IsOp(a) == hist' # hist /\ Op.a = a
+IsSave == IsOp("Save")
 
 (* an edit succeeds only when it names the entity's current version *)
-EditNeedsCurrentVersion ==
-    [][IsSave /\ Op.ok /\ ~Op.created => (Op.rq.id \in DOMAIN db.ent /\ db.ent[Op.rq.id].ver = Op.rq.old)]_vars
-(* ... and an edit that names it and changes neither name nor type is accepted *)
+EditNeedsCurrentVersionStep ==
+    IsSave /\ Op.ok /\ ~Op.created => (Op.rq.id \in DOMAIN db.ent /\ db.ent[Op.rq.id].ver = Op.rq.old)
+EditNeedsCurrentVersion == [][EditNeedsCurrentVersionStep]_vars
+(* ... and an edit that names it and changes neither name nor type is accepted (mechanism) *)
 CurrentVersionAccepted ==
     [][IsSave /\ ~Op.rq.create /\ Op.rq.id \in DOMAIN db.ent /\ db.ent[Op.rq.id].ver = Op.rq.old
        /\ db.ent[Op.rq.id].name = Op.rq.name /\ db.ent[Op.rq.id].typ = Op.rq.typ => Op.ok]_vars
 (* every successful create or edit gets a new version greater than all previous ones, and
    that is the version the entity carries afterwards *)
-VersionsIncrease ==
-    [][IsSave /\ Op.ok => /\ \A v \in issued : Op.rver > v
-                          /\ Op.rid \in DOMAIN db'.ent /\ db'.ent[Op.rid].ver = Op.rver
-                          /\ \A j \in DOMAIN db.ent \ {Op.rid} : db'.ent[j] = db.ent[j]]_vars
+VersionsIncreaseStep ==
+    IsSave /\ Op.ok => /\ \A v \in issued : Op.rver > v
+                       /\ Op.rid \in DOMAIN db'.ent /\ db'.ent[Op.rid].ver = Op.rver
+                       /\ \A j \in DOMAIN db.ent \ {Op.rid} : j \in DOMAIN db'.ent /\ db'.ent[j] = db.ent[j]
+VersionsIncrease == [][VersionsIncreaseStep]_vars
 VersionsUnique ==
     /\ \A i, j \in DOMAIN db.ent : i # j => db.ent[i].ver # db.ent[j].ver
     /\ \A r1, r2 \in db.hrows : r1.ver = r2.ver => r1 = r2
@@ -455,15 +460,17 @@ VersionsUnique ==
     /\ \A r \in db.hrows : r.ver \in issued
 (* of racing edits from the same version at most one succeeds, and exactly one when each of
    them would have been accepted alone *)
-RaceOneWinner ==
-    [][hist' # hist /\ Op.a = "Race" => /\ ~(Op.ok1 /\ Op.ok2)
-                                        /\ (Op.alone1 /\ Op.alone2 => (Op.ok1 \/ Op.ok2))
-                                        /\ (Op.ok1 => \A v \in issued : Op.ver1 > v)
-                                        /\ (Op.ok2 => \A v \in issued : Op.ver2 > v)]_vars
+RaceOneWinnerStep ==
+    IsOp("Race") => /\ ~(Op.ok1 /\ Op.ok2)
+                    /\ (Op.alone1 /\ Op.alone2 => (Op.ok1 \/ Op.ok2))
+                    /\ (Op.ok1 => \A v \in issued : Op.ver1 > v)
+                    /\ (Op.ok2 => \A v \in issued : Op.ver2 > v)
+RaceOneWinner == [][RaceOneWinnerStep]_vars
 NameUnique == \A i, j \in DOMAIN db.ent : i # j => ~(db.ent[i].typ = db.ent[j].typ /\ db.ent[i].name = db.ent[j].name)
-NamespaceNeverRenamed ==
-    [][\A i \in DOMAIN db.ent : i \in DOMAIN db'.ent /\ db'.ent[i].typ = db.ent[i].typ
-                                /\ (db.ent[i].typ = TNs => db'.ent[i].name = db.ent[i].name)]_vars
+NamespaceNeverRenamedStep ==
+    \A i \in DOMAIN db.ent : i \in DOMAIN db'.ent /\ db'.ent[i].typ = db.ent[i].typ
+                             /\ (db.ent[i].typ = TNs => db'.ent[i].name = db.ent[i].name)
+NamespaceNeverRenamed == [][NamespaceNeverRenamedStep]_vars
 NamespaceExists ==
     \A i \in DOMAIN db.ent :
         LET e == db.ent[i] IN
@@ -490,22 +497,26 @@ ReplayExact == \A i \in DOMAIN snaps : ObsEq(ReplayFrom(snaps[i]), db, {})
 (* ======================= C19 ======================= *)
 Bijection == \A p, q \in db.maps : (p.k = q.k \/ p.id = q.id) => p = q
 PositiveIds == \A p \in db.maps : p.id > 0
-IsOp(a) == hist' # hist /\ Op.a = a
 (* a mapping never changes until it is explicitly deleted / overwritten by PutMapping *)
-MappingStable ==
-    [][/\ (~IsOp("Put") /\ ~IsOp("Del") => db.maps \subseteq db'.maps)
-       /\ (IsOp("Del") => \A p \in db.maps : p.id \notin {Op.ids[x] : x \in DOMAIN Op.ids} => p \in db'.maps)
-       /\ (IsOp("Put") => \A p \in db.maps : (\A x \in DOMAIN Op.ks : Op.ks[x] # p.k /\ Op.vs[x] # p.id) => p \in db'.maps)]_vars
-GetOrCreateIdempotent ==
-    [][IsOp("Goc") => /\ (HasKey(db, Op.key) => Op.kind = "get" /\ Op.rid = IdOf(db, Op.key).id /\ db'.maps = db.maps)
-                      /\ (Op.kind \in {"get", "created"} => [k |-> Op.key, id |-> Op.rid] \in db'.maps)
-                      /\ (Op.kind = "flood" => db' = db)]_vars
-DeadIdsNeverReissued == [][IsOp("Goc") /\ Op.kind = "created" => Op.rid \notin used /\ Op.rid > 0]_vars
+MappingStableStep ==
+    /\ (~IsOp("Put") /\ ~IsOp("Del") => db.maps \subseteq db'.maps)
+    /\ (IsOp("Del") => \A p \in db.maps : p.id \notin {Op.ids[x] : x \in DOMAIN Op.ids} => p \in db'.maps)
+    /\ (IsOp("Put") => \A p \in db.maps : (\A x \in DOMAIN Op.ks : Op.ks[x] # p.k /\ Op.vs[x] # p.id) => p \in db'.maps)
+MappingStable == [][MappingStableStep]_vars
+GetOrCreateIdempotentStep ==
+    IsOp("Goc") => /\ (HasKey(db, Op.key) => Op.kind = "get" /\ Op.rid = IdOf(db, Op.key).id /\ db'.maps = db.maps)
+                   /\ (Op.kind \in {"get", "created"} => [k |-> Op.key, id |-> Op.rid] \in db'.maps)
+                   /\ (Op.kind = "get" => [k |-> Op.key, id |-> Op.rid] \in db.maps)
+                   /\ (Op.kind = "flood" => db' = db)
+GetOrCreateIdempotent == [][GetOrCreateIdempotentStep]_vars
+DeadIdsNeverReissuedStep == IsOp("Goc") /\ Op.kind = "created" => Op.rid \notin used /\ Op.rid > 0
+DeadIdsNeverReissued == [][DeadIdsNeverReissuedStep]_vars
 UsedComplete == \A p \in db.maps : p.id \in used
 (* flood limit: beyond the global budget a metric never creates more than its allowance *)
 FloodBound == \A m \in Metrics : credit[m] >= 0
 (* mechanism facts the bound rests on *)
-FloodRowBelowCredit == exhausted => \A m \in DOMAIN db.flood : db.flood[m].free <= credit[m]
+FloodRowBelowCredit == /\ \A m \in DOMAIN db.flood : db.flood[m].free <= credit[m]
+                       /\ \A m \in Metrics \ DOMAIN db.flood : MaxBudget <= credit[m]
 FloodTimesRounded == \A m \in DOMAIN db.flood : db.flood[m].last <= RoundTime(clock)
 ChargedWhenExhausted == exhausted => ~(lastCreated > 0 /\ lastCreated <= GlobalBudget)
 
